@@ -33,9 +33,7 @@ def protect (P : Prims) (sa : SAKey) (role : Bool) (r : Rand) (m : Msg) : SAKey 
     | (r1, .fault) => (sa, r1, .fault)
     | (r1, .ok ct) =>
       let encData := ct ++ zeros cl
-      let next : UInt8 := match m.payloads with
-        | p :: _ => p.typeCode
-        | [] => Facts.typeNoNext
+      let next : UInt8 := firstType m.payloads
       let m1 : Msg := ⟨m.hdr, [.sk next encData]⟩
       match encodeMsg m1 with
       | .err => (sa, r1, .err)
